@@ -328,6 +328,9 @@ def check_units(ctx, rng, case, index):
             for s_, k_, c_ in crossings:
                 by_level.setdefault(k_, []).append(offsets[s_] + c_)
             mean = {k_: math.fsum(v) / len(v) for k_, v in by_level.items()}
+            # round-off of the table as a whole: a level mean is computed from numbers of the size of the
+            # largest offset / crossing, whatever the size of the interval's own entries
+            table_scale = max([abs(v) for v in offsets.values()] + [abs(c_) for _, _, c_ in crossings] + [0.0])
             for s_ in offsets:
                 mine = [(k_, c_) for s2, k_, c_ in crossings if s2 == s_]
                 if not mine:
@@ -335,7 +338,7 @@ def check_units(ctx, rng, case, index):
                 r = math.fsum(offsets[s_] + c_ - mean[k_] for k_, c_ in mine)
                 # magnitudes of what is added up (next to the origin offset + crossing cancels)
                 sc = math.fsum(abs(offsets[s_]) + abs(c_) + abs(mean[k_]) for k_, c_ in mine)
-                if abs(r) > 1e-9 * sc:
+                if abs(r) > 1e-9 * sc + 64 * 2.0 ** -52 * table_scale * len(mine):
                     rec.violation('units:{}-residuals-of-an-interval-do-not-sum-to-zero-in-the-unit-of-the-record'.format(kind),
                                   {'variant': name, 'interval': s_, 'residual_sum': r, 'sum_of_magnitudes': sc, 'relative': abs(r) / sc if sc else None},
                                   witness_case, 'units')
